@@ -297,4 +297,40 @@ theorem pad_accepted_alike {coord : Coord} {v : Vol} {wd : PadWidth} {o : PadOpt
     simp only [SOp.applyVol, hcm, hr, bind, Except.bind, Vol.padStep, hx, pure, Except.pure]
 
 
+/-! ## store: independence of freshly allocated results -/
+
+theorem writeBuf_other (s : Store) (b c k : Nat) (x : Rat) (h : c ≠ b) : (writeBuf s b k x)[c]? = s[c]? := by
+  induction s generalizing b c with
+  | nil => simp [writeBuf]
+  | cons buf rest ih =>
+    cases b with
+    | zero =>
+      cases c with
+      | zero => exact absurd rfl h
+      | succ c => simp [writeBuf]
+    | succ b =>
+      cases c with
+      | zero => simp [writeBuf]
+      | succ c => simp only [writeBuf, List.getElem?_cons_succ]; exact ih b c (by omega)
+
+theorem writeBuf_same_len (s : Store) (b k : Nat) (x : Rat) : (writeBuf s b k x).length = s.length := by
+  induction s generalizing b with
+  | nil => simp [writeBuf]
+  | cons buf rest ih => cases b <;> simp [writeBuf, ih]
+
+/-- a result living in a freshly allocated buffer is independent: editing it in place leaves every buffer that existed
+before the operation (in particular the input's) exactly as it was -/
+theorem fresh_independent (s : Store) (own given : Nat) (contents : List Rat) (r : Nat)
+    (hr : resultBuffer .fresh s own given = some r) (k : Nat) (x : Rat) (b : Nat) (hb : b < s.length) :
+    (writeBuf (storeAfter .fresh s contents) r k x)[b]? = s[b]? := by
+  simp only [resultBuffer, Option.some.injEq] at hr
+  subst hr
+  rw [writeBuf_other _ _ _ _ _ (by omega)]
+  simp [storeAfter, List.getElem?_append_left hb]
+
+/-- a view lives in the input's buffer: an in-place edit of the result IS an edit of the input (numpy view semantics) -/
+theorem view_aliases (s : Store) (own given : Nat) : resultBuffer .view s own given = some own ∧ storeAfter .view s [] = s :=
+  ⟨rfl, rfl⟩
+
+
 end HdVerif.VolLemmas
